@@ -30,11 +30,25 @@ JudgeObs(r, o, tag) ==
     ELSE /\ (o.bits = r.out \/ Fail("bits" \o tag))
          /\ (SymsAgree(r.syms, o.syms) \/ Fail("symbols" \o tag))
 
+\* C07: E.progs[1] is the canonical program, the others are re-renderings of it
+\* (as abstract programs: recased literal tokens, extra blanks, permuted and
+\* re-partitioned rules, consistently renamed symbols).  The specification
+\* itself must be invariant (same acceptance, same bits), and every observed
+\* assembly must be what the specification prescribes for ITS rendering.
+Renderings ==
+    LET r0 == Assemble(E.progs[1]) IN
+    IF r0.t = "skip" THEN Skip(r0.why)
+    ELSE \A k \in 1..Len(E.progs) :
+            LET rk == IF k = 1 THEN r0 ELSE Assemble(E.progs[k]) IN
+            /\ ((rk.t = r0.t /\ rk.out = r0.out) \/ Fail("spec-not-invariant"))
+            /\ JudgeObs(rk, E.obs[k], IF k = 1 THEN "" ELSE ":rendering")
+
 TAsm ==
     /\ l <= Len(Rec) /\ l' = l + 1
-    /\ LET r == Assemble(E.prog) IN
-       IF r.t = "skip" THEN Skip(r.why)
-       ELSE \A k \in 1..Len(E.obs) : JudgeObs(r, E.obs[k], IF k = 1 THEN "" ELSE ":rendering")
+    /\ IF E.ev = "asm7" THEN Renderings
+       ELSE LET r == Assemble(E.prog) IN
+            IF r.t = "skip" THEN Skip(r.why)
+            ELSE \A k \in 1..Len(E.obs) : JudgeObs(r, E.obs[k], IF k = 1 THEN "" ELSE ":rendering")
 
 TSpec == l = 1 /\ [][TAsm]_l
 
